@@ -63,3 +63,17 @@ Theorem C17_bin_contains_input : forall (locs : list R) (x : R) (K : nat),
     (nth k locs 0 <= x)%R /\ ((x < nth (S k) locs 0)%R \/ S k = K).
 Proof. exact searchsorted_spec. Qed.
 Print Assumptions C17_bin_contains_input.
+
+(* every input of the closed box is accepted by the whole rational-quadratic spline, in both directions, with a real result
+   (no domain error, no index error in the bin lookup), for every accepted configuration and all parameters *)
+From NF Require Import Base.Result Model.SplineRQ Proofs.SplineRQWhole.
+Theorem C17_rq_whole_spline_accepts_its_box :
+  forall (c : @rq_cfg R) (bx : @box R) (uw uh ud : list R), rq_wellformed c bx uw uh ud ->
+  (forall x, b_left bx <= x <= b_right bx -> exists y l, rq_spline Rops c false bx uw uh ud x = Ok (y, l)) /\
+  (forall y, b_bottom bx <= y <= b_top bx -> exists x l, rq_spline Rops c true bx uw uh ud y = Ok (x, l)).
+Proof.
+  intros c bx uw uh ud [H1 [H2 [H3 [H4 [H5 [H6 [H7 [H8 [H9 [H10 H11]]]]]]]]]]. split.
+  - intros x Hx. destruct (whole_forward_range c bx uw uh ud H1 H2 H3 H4 H5 H6 H7 H8 H9 H10 H11 x Hx) as [y [l [E _]]]. exists y, l. exact E.
+  - intros y Hy. destruct (whole_forward_of_inverse c bx uw uh ud H1 H2 H3 H4 H5 H6 H7 H8 H9 H10 H11 y Hy) as [x [l [E _]]]. exists x, l. exact E.
+Qed.
+Print Assumptions C17_rq_whole_spline_accepts_its_box.
